@@ -60,6 +60,9 @@ pub struct Hist {
     /// overwrite buf[n..] with garbage on every successful read (legal: bytes past n are unspecified)
     pub scribble: bool,
     pub sub: u8,
+    /// call context: 0 the worker thread itself; 1 a freshly spawned thread with a small (192 KiB) stack;
+    /// 2 inside a thread-local destructor at thread exit, on a thread that has used the library before
+    pub ctx: u8,
 }
 
 #[derive(Debug)]
@@ -319,101 +322,20 @@ fn draw_piece(r: &mut Rng, class: u64, left: usize) -> u32 {
     k.min(u32::MAX as u64) as u32
 }
 
-impl Scenario for C12 {
-    type Hist = Hist;
-    fn name(&self) -> &'static str {
-        if self.lies { "c17reader" } else { "c12" }
+struct ExitHook(Option<Box<dyn FnOnce() + Send>>);
+impl Drop for ExitHook {
+    fn drop(&mut self) {
+        if let Some(f) = self.0.take() {
+            f()
+        }
     }
-    fn property(&self) -> &'static str {
-        if self.lies { "C17" } else { "C12" }
-    }
-    fn rule(&self) -> &'static str {
-        "history = (api/variant, data descriptor, reader script, drain size, scribble flag); distinct = distinct history digests; \
-         non-trivial = at least 2 read calls were made and, outside the fault-free sub-batch, at least one injected fault (EINTR, hard error, early EOF, scribble, lie) actually fired"
-    }
-    fn generate(&self, r: &mut Rng, index: u64) -> Hist {
-        // sub-batches: 0 honest; 1 +EINTR; 2 +hard error; 3 early EOF; 4 swarm (everything, scribble)
-        let sub = (index % 5) as u8;
-        let api = r.below(6) as u8;
-        let len = draw_len(r);
-        let data = draw_data(r, len);
-        let class = r.below(7);
-        let mut script = Vec::new();
-        let mut left = len;
-        let max_deliver = r.range(1, 40);
-        let mut n = 0;
-        while left > 0 && n < max_deliver {
-            let k = draw_piece(r, class, left);
-            script.push(Ev::Deliver(k));
-            left -= (k as usize).min(left).min(MIB);
-            n += 1;
-        }
-        let drain = if left > 0 || r.chance(1, 2) {
-            if r.chance(1, 6) {
-                0
-            } else {
-                let c = r.below(6);
-                // keep the number of drain reads bounded (<= ~64 calls)
-                draw_piece(r, c, left).max(1).max((left / 48) as u32)
-            }
-        } else {
-            0
-        };
-        let eintr = matches!(sub, 1 | 4) || (matches!(sub, 2 | 3) && r.chance(1, 3));
-        let hard = sub == 2 || (sub == 4 && r.chance(1, 2));
-        let eof = sub == 3 || (sub == 4 && r.chance(1, 3));
-        let scribble = sub == 4 && r.chance(1, 2);
-        if eintr {
-            let bursts = r.range(1, 4);
-            for _ in 0..bursts {
-                let mut at = r.below(script.len() as u64 + 1) as usize;
-                if r.chance(1, 8) {
-                    // bias: right after a delivery that can fill the whole 1 MiB buffer (state: buffer just flushed)
-                    if let Some(p) = script.iter().position(|e| matches!(e, Ev::Deliver(k) if *k as usize >= MIB)) {
-                        at = p + 1;
-                    }
-                }
-                let run = if r.chance(1, 64) {
-                    *r.pick(&[15u64, 16, 17, 31, 32, 33, 63, 64, 65, 100, 127, 128, 129, 255, 256, 257, 1000])
-                } else if r.chance(1, 8) {
-                    r.range(3, 50)
-                } else {
-                    r.range(1, 2)
-                };
-                for _ in 0..run {
-                    script.insert(at, Ev::Eintr);
-                }
-            }
-        }
-        if eof && !script.is_empty() {
-            let at = r.below(script.len() as u64 + 1) as usize;
-            script.insert(at, Ev::Eof);
-        }
-        if hard {
-            let at = r.below(script.len() as u64 + 1) as usize;
-            let kind = r.below(HARD_TOTAL as u64) as u8;
-            script.insert(at, Ev::Hard(kind));
-            if r.chance(1, 5) {
-                // a second, different hard error later: the *first* one must be reported
-                let at2 = r.range(at as u64 + 1, script.len() as u64) as usize;
-                script.insert(at2, Ev::Hard(((kind as usize + 1) % HARD_TOTAL) as u8));
-            }
-        }
-        if sub != 0 && r.chance(1, 5) {
-            let at = r.below(script.len() as u64 + 1) as usize;
-            script.insert(at, Ev::Nested { other_thread: r.chance(1, 2), k: r.range(1, 5000) as u32 });
-        }
-        if self.lies {
-            // C17 flavour: some runs carry one lie somewhere (sub 0 stays honest)
-            if sub != 0 {
-                let at = r.below(script.len() as u64 + 1) as usize;
-                script.insert(at, Ev::Lie(r.below(4) as u8));
-            }
-        }
-        Hist { api, data, script, drain, scribble, sub }
-    }
+}
+thread_local! {
+    static EXIT: std::cell::RefCell<ExitHook> = std::cell::RefCell::new(ExitHook(None));
+}
 
-    fn execute(&self, h: &Hist, st: &mut Stats) -> Outcome {
+impl C12 {
+    fn execute_inner(&self, h: &Hist, st: &mut Stats) -> Outcome {
         let data = h.data.bytes();
         let mut rd = SimReader::new(&data, h);
         let api = h.api;
@@ -568,6 +490,158 @@ impl Scenario for C12 {
         };
         Outcome { violation, digest: fnv.finish(), nontrivial, states }
     }
+}
+
+impl Scenario for C12 {
+    type Hist = Hist;
+    fn name(&self) -> &'static str {
+        if self.lies { "c17reader" } else { "c12" }
+    }
+    fn property(&self) -> &'static str {
+        if self.lies { "C17" } else { "C12" }
+    }
+    fn rule(&self) -> &'static str {
+        "history = (api/variant, data descriptor, reader script, drain size, scribble flag); distinct = distinct history digests; \
+         non-trivial = at least 2 read calls were made and, outside the fault-free sub-batch, at least one injected fault (EINTR, hard error, early EOF, scribble, lie) actually fired"
+    }
+    fn generate(&self, r: &mut Rng, index: u64) -> Hist {
+        // sub-batches: 0 honest; 1 +EINTR; 2 +hard error; 3 early EOF; 4 swarm (everything, scribble)
+        let sub = (index % 5) as u8;
+        let api = r.below(6) as u8;
+        let len = draw_len(r);
+        let data = draw_data(r, len);
+        let class = r.below(7);
+        let mut script = Vec::new();
+        let mut left = len;
+        let max_deliver = r.range(1, 40);
+        let mut n = 0;
+        while left > 0 && n < max_deliver {
+            let k = draw_piece(r, class, left);
+            script.push(Ev::Deliver(k));
+            left -= (k as usize).min(left).min(MIB);
+            n += 1;
+        }
+        let drain = if left > 0 || r.chance(1, 2) {
+            if r.chance(1, 6) {
+                0
+            } else {
+                let c = r.below(6);
+                // keep the number of drain reads bounded (<= ~64 calls)
+                draw_piece(r, c, left).max(1).max((left / 48) as u32)
+            }
+        } else {
+            0
+        };
+        let eintr = matches!(sub, 1 | 4) || (matches!(sub, 2 | 3) && r.chance(1, 3));
+        let hard = sub == 2 || (sub == 4 && r.chance(1, 2));
+        let eof = sub == 3 || (sub == 4 && r.chance(1, 3));
+        let scribble = sub == 4 && r.chance(1, 2);
+        if eintr {
+            let bursts = r.range(1, 4);
+            for _ in 0..bursts {
+                let mut at = r.below(script.len() as u64 + 1) as usize;
+                if r.chance(1, 8) {
+                    // bias: right after a delivery that can fill the whole 1 MiB buffer (state: buffer just flushed)
+                    if let Some(p) = script.iter().position(|e| matches!(e, Ev::Deliver(k) if *k as usize >= MIB)) {
+                        at = p + 1;
+                    }
+                }
+                let run = if r.chance(1, 64) {
+                    *r.pick(&[15u64, 16, 17, 31, 32, 33, 63, 64, 65, 100, 127, 128, 129, 255, 256, 257, 1000])
+                } else if r.chance(1, 8) {
+                    r.range(3, 50)
+                } else {
+                    r.range(1, 2)
+                };
+                for _ in 0..run {
+                    script.insert(at, Ev::Eintr);
+                }
+            }
+        }
+        if eof && !script.is_empty() {
+            let at = r.below(script.len() as u64 + 1) as usize;
+            script.insert(at, Ev::Eof);
+        }
+        if hard {
+            let at = r.below(script.len() as u64 + 1) as usize;
+            let kind = r.below(HARD_TOTAL as u64) as u8;
+            script.insert(at, Ev::Hard(kind));
+            if r.chance(1, 5) {
+                // a second, different hard error later: the *first* one must be reported
+                let at2 = r.range(at as u64 + 1, script.len() as u64) as usize;
+                script.insert(at2, Ev::Hard(((kind as usize + 1) % HARD_TOTAL) as u8));
+            }
+        }
+        if sub != 0 && r.chance(1, 5) {
+            let at = r.below(script.len() as u64 + 1) as usize;
+            script.insert(at, Ev::Nested { other_thread: r.chance(1, 2), k: r.range(1, 5000) as u32 });
+        }
+        if self.lies {
+            // C17 flavour: some runs carry one lie somewhere (sub 0 stays honest)
+            if sub != 0 {
+                let at = r.below(script.len() as u64 + 1) as usize;
+                script.insert(at, Ev::Lie(r.below(4) as u8));
+            }
+        }
+        let ctx = if sub == 0 { 0 } else { match r.below(20) { 0..=1 => 1, 2 => 2, _ => 0 } };
+        Hist { api, data, script, drain, scribble, sub, ctx }
+    }
+
+    fn execute(&self, h: &Hist, st: &mut Stats) -> Outcome {
+        match h.ctx {
+            1 => {
+                st.hit("fault.call_on_small_stack_thread");
+                let mut local = Stats::default();
+                let out = std::thread::scope(|sc| {
+                    std::thread::Builder::new()
+                        .stack_size(192 * 1024)
+                        .spawn_scoped(sc, || self.execute_inner(h, &mut local))
+                        .expect("spawn")
+                        .join()
+                });
+                st.merge(&local);
+                out.unwrap_or_else(|_| Outcome {
+                    violation: Some(Violation { class: "panic:on-small-stack-thread".into(), detail: "the call panicked on a thread with a 192 KiB stack".into() }),
+                    digest: 0,
+                    nontrivial: true,
+                    states: vec![],
+                })
+            }
+            2 => {
+                st.hit("fault.call_inside_tls_destructor_at_thread_exit");
+                let (tx, rx) = std::sync::mpsc::channel();
+                let (hc, lies) = (h.clone(), self.lies);
+                let t = std::thread::spawn(move || {
+                    // our thread-local is initialised first, so it is destroyed last: its destructor runs after whatever
+                    // thread-local state the library created during the warm-up call has already been torn down
+                    EXIT.with(|e| {
+                        e.borrow_mut().0 = Some(Box::new(move || {
+                            let mut local = Stats::default();
+                            let out = C12 { lies }.execute_inner(&hc, &mut local);
+                            let _ = tx.send((out, local));
+                        }))
+                    });
+                    let mut warm: &[u8] = &[0x55u8; 80];
+                    let _ = tlsh::hash_stream(&mut warm);
+                });
+                let got = rx.recv();
+                let _ = t.join();
+                match got {
+                    Ok((out, local)) => {
+                        st.merge(&local);
+                        out
+                    }
+                    Err(_) => Outcome {
+                        violation: Some(Violation { class: "panic:inside-tls-destructor".into(), detail: "the call made from a thread-local destructor at thread exit did not return".into() }),
+                        digest: 0,
+                        nontrivial: true,
+                        states: vec![],
+                    },
+                }
+            }
+            _ => self.execute_inner(h, st),
+        }
+    }
 
     fn shrink(&self, h: &Hist) -> Vec<Hist> {
         let mut out = Vec::new();
@@ -624,6 +698,11 @@ impl Scenario for C12 {
             c.api = 1;
             out.push(c);
         }
+        if h.ctx != 0 {
+            let mut c = h.clone();
+            c.ctx = 0;
+            out.push(c);
+        }
         out
     }
 
@@ -642,7 +721,7 @@ impl Scenario for C12 {
             .collect();
         json!({
             "api": if h.api >= 5 { "hash_stream".to_string() } else { format!("hash_stream_for::<{}>", VARIANT_NAMES[h.api as usize]) },
-            "api_id": h.api, "data": h.data.to_json(), "script": script, "drain": h.drain, "scribble": h.scribble, "sub": h.sub,
+            "api_id": h.api, "data": h.data.to_json(), "script": script, "drain": h.drain, "scribble": h.scribble, "sub": h.sub, "ctx": h.ctx,
         })
     }
     fn from_json(&self, v: &Value) -> Result<Hist, String> {
@@ -678,6 +757,7 @@ impl Scenario for C12 {
             drain: v["drain"].as_u64().ok_or("drain")? as u32,
             scribble: v["scribble"].as_bool().ok_or("scribble")?,
             sub: v["sub"].as_u64().unwrap_or(4) as u8,
+            ctx: v["ctx"].as_u64().unwrap_or(0) as u8,
         })
     }
 }
